@@ -164,28 +164,54 @@ func loadProgram(repo, pkgPath, hdir, rtFile, tags string) (*ssa.Program, *ssa.P
 	if err := addExtraOverlays(repo, overlay); err != nil { // -hdir2 (overlay_extra.go)
 		return nil, nil, err
 	}
-	cfg := &packages.Config{
-		Mode:       packages.LoadAllSyntax,
-		Dir:        repo,
-		Overlay:    overlay,
-		BuildFlags: []string{"-tags=" + tags, "-mod=mod"},
-		Env:        append(os.Environ(), "GOFLAGS=-mod=mod", "GOPROXY=off", "GOSUMDB=off", "GOTOOLCHAIN=local"),
-	}
-	pkgs, err := packages.Load(cfg, pkgPath)
-	if err != nil {
-		return nil, nil, err
-	}
-	nerr := 0
-	packages.Visit(pkgs, nil, func(p *packages.Package) {
-		for _, e := range p.Errors {
-			if strings.HasPrefix(p.PkgPath, modPath) {
-				fmt.Fprintln(os.Stderr, "load error:", e)
-				nerr++
-			}
+	// A harness file that no longer type-checks against the current tree (it names an internal the tree changed)
+	// is left out, with everything in it reported as missing, and the rest of the package's harnesses still run:
+	// up to 4 rounds, because leaving a file out can take a helper away from another one.
+	var pkgs []*packages.Package
+	for round := 0; ; round++ {
+		cfg := &packages.Config{
+			Mode:       packages.LoadAllSyntax,
+			Dir:        repo,
+			Overlay:    overlay,
+			BuildFlags: []string{"-tags=" + tags, "-mod=mod"},
+			Env:        append(os.Environ(), "GOFLAGS=-mod=mod", "GOPROXY=off", "GOSUMDB=off", "GOTOOLCHAIN=local"),
 		}
-	})
-	if nerr > 0 {
-		return nil, nil, fmt.Errorf("%d load errors (harness does not build against the current tree)", nerr)
+		var err error
+		pkgs, err = packages.Load(cfg, pkgPath)
+		if err != nil {
+			return nil, nil, err
+		}
+		nerr := 0
+		bad := map[string]bool{}
+		other := false
+		packages.Visit(pkgs, nil, func(p *packages.Package) {
+			for _, e := range p.Errors {
+				if strings.HasPrefix(p.PkgPath, modPath) {
+					fmt.Fprintln(os.Stderr, "load error:", e)
+					nerr++
+					file := e.Pos
+					if i := strings.Index(file, ".go:"); i >= 0 {
+						file = file[:i+3]
+					}
+					base := filepath.Base(file)
+					if _, isOverlay := overlay[file]; isOverlay && strings.HasPrefix(base, "zz_verif_") && base != "zz_verif_rt.go" {
+						bad[file] = true
+					} else {
+						other = true
+					}
+				}
+			}
+		})
+		if nerr == 0 {
+			break
+		}
+		if other || len(bad) == 0 || round >= 4 {
+			return nil, nil, fmt.Errorf("%d load errors (harness does not build against the current tree)", nerr)
+		}
+		for f := range bad {
+			fmt.Fprintln(os.Stderr, "excluded harness file (does not build against the current tree):", filepath.Base(f))
+			delete(overlay, f)
+		}
 	}
 	prog, spkgs := ssautil.AllPackages(pkgs, ssa.InstantiateGenerics|ssa.SanityCheckFunctions&0)
 	if len(spkgs) == 0 || spkgs[0] == nil {
